@@ -1,9 +1,12 @@
 package main
 
 import (
+	"bytes"
+	"encoding/json"
 	"flag"
 	"fmt"
 	"os"
+	"os/exec"
 	"path/filepath"
 	"runtime/debug"
 	"sort"
@@ -56,6 +59,7 @@ func main() {
 			os.Exit(2)
 		}
 	}
+	currentOverlay = overlay
 	e, err := Load(*repo, overlay)
 	if err != nil {
 		// load failure = alarm for the requested property (cannot decide)
@@ -69,6 +73,10 @@ func main() {
 			r.Finish(*verif, *tier, seed, start, nil)
 		}
 		os.Exit(code)
+	}
+	if *dump == "funcs-baseline" {
+		dumpBaselineFuncs(e)
+		return
 	}
 	if *dump != "" {
 		doDump(e, *dump)
@@ -102,9 +110,18 @@ func main() {
 			"dep_functions_bodies": len(e.DepFuncs),
 			"load_s":               loadS,
 		}
-		if c := r.Finish(*verif, *tier, seed, t0, stats); c != 0 {
+		var buf bytes.Buffer
+		finishOut = &buf
+		c := r.Finish(*verif, *tier, seed, t0, stats)
+		finishOut = os.Stdout
+		if c != 0 {
+			if out, ok := tryInlinedView(e, overlay, id, *tier, *repo, *verif, buf.String()); ok {
+				fmt.Print(out)
+				continue
+			}
 			exit = 1
 		}
+		fmt.Print(buf.String())
 	}
 	os.Exit(exit)
 }
@@ -224,3 +241,128 @@ func init() {
 }
 
 var extraDumps = map[string]func(e *Engine){}
+
+var inlinedOverlayCache struct {
+	done  bool
+	spec  string
+	n     int
+	dir   string
+	files []string
+}
+
+// tryInlinedView repeats the check of one property on the helper-inlined normal form of the program (inline.go) in a
+// sub-process. ok=true means the property holds there: the reports of the first view were artefacts of where function
+// boundaries lie, and the evidence of the second view is installed as this run's evidence.
+func tryInlinedView(e *Engine, overlay map[string][]byte, id, tier, repo, verif, firstOut string) (string, bool) {
+	if os.Getenv("FXCHECK_NOINLINE") != "" {
+		return "", false
+	}
+	round := 0
+	fmt.Sscanf(os.Getenv("FXCHECK_INLINE_ROUND"), "%d", &round)
+	if round >= 2 {
+		return "", false
+	}
+	c := &inlinedOverlayCache
+	if !c.done {
+		c.done = true
+		files, n := InlineOverlay(e, overlay)
+		c.n = n
+		if n > 0 {
+			dir, err := os.MkdirTemp("/var/tmp", "fxinl-")
+			if err != nil {
+				return "", false
+			}
+			c.dir = dir
+			merged := map[string][]byte{}
+			for k, v := range overlay {
+				merged[k] = v
+			}
+			for k, v := range files {
+				merged[k] = v
+				c.files = append(c.files, k)
+			}
+			var parts []string
+			i := 0
+			for k, v := range merged {
+				fp := filepath.Join(dir, fmt.Sprintf("ov%d.go", i))
+				i++
+				if os.WriteFile(fp, v, 0o644) != nil {
+					return "", false
+				}
+				parts = append(parts, k+"="+fp)
+			}
+			sort.Strings(parts)
+			c.spec = strings.Join(parts, ",")
+		}
+	}
+	if c.n == 0 {
+		if os.Getenv("FXCHECK_INLINE_DEBUG") != "" {
+			fmt.Fprintln(os.Stderr, "INLINE-DEBUG nothing to fold")
+		}
+		return "", false
+	}
+	vdir := filepath.Join(c.dir, "verif-"+id)
+	os.MkdirAll(filepath.Join(vdir, "evidence"), 0o755)
+	for _, f := range []string{"known_findings.jsonl", "properties.jsonl", "baseline_funcs.txt"} {
+		if b, err := os.ReadFile(filepath.Join(verif, f)); err == nil {
+			os.WriteFile(filepath.Join(vdir, f), b, 0o644)
+		}
+	}
+	exe, err := os.Executable()
+	if err != nil {
+		return "", false
+	}
+	cmd := exec.Command(exe, "-prop", id, "-tier", tier, "-repo", repo, "-verif", vdir)
+	cmd.Env = append(os.Environ(), "FXCHECK_OVERLAY="+c.spec, fmt.Sprintf("FXCHECK_INLINE_ROUND=%d", round+1))
+	outb, err := cmd.CombinedOutput()
+	out := string(outb)
+	if os.Getenv("FXCHECK_INLINE_DEBUG") != "" {
+		fmt.Fprintf(os.Stderr, "INLINE-DEBUG folded=%d dir=%s files=%v err=%v\n%s\n", c.n, c.dir, c.files, err, out)
+	}
+	if err != nil || strings.Contains(out, "LOAD-ERROR") || strings.Contains(out, "VIOLATION ") {
+		return "", false
+	}
+	evb, err := os.ReadFile(filepath.Join(vdir, "evidence", id+".json"))
+	if err != nil {
+		return "", false
+	}
+	var ev map[string]any
+	if json.Unmarshal(evb, &ev) != nil {
+		return "", false
+	}
+	var firstReports []string
+	for _, l := range strings.Split(firstOut, "\n") {
+		if strings.HasPrefix(l, "REPORT ") {
+			if len(l) > 300 {
+				l = l[:300]
+			}
+			firstReports = append(firstReports, l)
+		}
+	}
+	if cov, ok := ev["coverage"].(map[string]any); ok {
+		sort.Strings(c.files)
+		cov["normal_form"] = map[string]any{
+			"what":               "decided on the helper-inlined normal form: helpers that are new with respect to baseline_funcs.txt were folded into their callers at the source level (a behaviour-preserving rewrite) and the program was type-checked and analysed again; the reports below were raised on the program as written and are not present in the equivalent program, i.e. they were artefacts of where function boundaries lie",
+			"calls_folded":       c.n,
+			"files_rewritten":    c.files,
+			"reports_as_written": firstReports,
+			"inline_round":       round + 1,
+		}
+	}
+	nb, _ := json.MarshalIndent(ev, "", " ")
+	if os.WriteFile(filepath.Join(verif, "evidence", id+".json"), nb, 0o644) != nil {
+		return "", false
+	}
+	old, _ := filepath.Glob(filepath.Join(verif, "evidence", "violations", id+"-*.json"))
+	for _, f := range old {
+		os.Remove(f)
+	}
+	var keep []string
+	for _, l := range strings.Split(out, "\n") {
+		if strings.HasPrefix(l, "KNOWN-FINDING") || strings.HasPrefix(l, "SUMMARY") || strings.HasPrefix(l, "NORMAL-FORM") {
+			keep = append(keep, l)
+		}
+	}
+	keep = append(keep, fmt.Sprintf("NORMAL-FORM property=%s round=%d: %d report(s) on the program as written are absent from the helper-inlined equivalent program (%d calls folded)", id, round+1, len(firstReports), c.n))
+	return strings.Join(keep, "\n") + "\n", true
+}
